@@ -21,10 +21,29 @@ pub struct CfgRes {
 }
 
 /// Modifier wrapper that logs every invocation.
+///
+/// A clone is a fresh modifier rebuilt from the spec, with the same id.
 #[derive(Debug)]
 pub struct LogMod {
-    pub id: u64,
-    pub inner: Box<dyn InputModifier>,
+    id: u64,
+    spec: ModSpec,
+    inner: Box<dyn InputModifier>,
+}
+
+impl LogMod {
+    pub fn new(id: u64, spec: &ModSpec) -> Self {
+        Self {
+            id,
+            spec: spec.clone(),
+            inner: build_mod(spec),
+        }
+    }
+}
+
+impl Clone for LogMod {
+    fn clone(&self) -> Self {
+        Self::new(self.id, &self.spec)
+    }
 }
 
 impl InputModifier for LogMod {
@@ -46,10 +65,29 @@ impl InputModifier for LogMod {
 }
 
 /// Condition wrapper that logs every invocation.
+///
+/// A clone is a fresh condition rebuilt from the spec, with the same id.
 #[derive(Debug)]
 pub struct LogCond {
-    pub id: u64,
-    pub inner: Box<dyn InputCondition>,
+    id: u64,
+    spec: CondSpec,
+    inner: Box<dyn InputCondition>,
+}
+
+impl LogCond {
+    pub fn new(id: u64, spec: &CondSpec) -> Self {
+        Self {
+            id,
+            spec: spec.clone(),
+            inner: build_cond(spec),
+        }
+    }
+}
+
+impl Clone for LogCond {
+    fn clone(&self) -> Self {
+        Self::new(self.id, &self.spec)
+    }
 }
 
 impl InputCondition for LogCond {
@@ -262,6 +300,218 @@ fn build_input(spec: &InputSpec) -> Input {
     }
 }
 
+fn key_input((k, m): KeyMod) -> Input {
+    Input::Keyboard {
+        key: KEYS[k],
+        mod_keys: ModKeys::from_bits_truncate(m),
+    }
+}
+
+/// `InputBind` of an `in` item with its own `imod`/`icond` lines.
+fn build_bind(input: &InputCfg) -> InputBind {
+    let mut binding = InputBind::new(build_input(&input.spec));
+    for (id, spec) in &input.mods {
+        binding = binding.with_modifiers(LogMod::new(*id, spec));
+    }
+    for (id, spec) in &input.conds {
+        binding = binding.with_conditions(LogCond::new(*id, spec));
+    }
+    binding
+}
+
+/// Bindings collected from a real `InputBindSet`, usable as a set again.
+///
+/// Keeps the item type uniform where the number of adapters / tuple members is runtime data.
+struct DynSet(Vec<InputBind>);
+
+impl DynSet {
+    fn collect(set: impl InputBindSet) -> Self {
+        Self(set.bindings().collect())
+    }
+}
+
+impl InputBindSet for DynSet {
+    fn bindings(self) -> impl Iterator<Item = InputBind> {
+        self.0.into_iter()
+    }
+}
+
+type Mods = [(u64, ModSpec)];
+type Conds = [(u64, CondSpec)];
+
+/// Wraps `set` with the real `*_each` adapters: all `emod` lines in order, then all `econd` lines.
+fn each<S: InputBindSet>(set: S, emods: &Mods, econds: &Conds) -> DynSet {
+    match (emods, econds) {
+        ([(id, spec), rest @ ..], _) => {
+            let adapted = set.with_modifiers_each(LogMod::new(*id, spec));
+            each(DynSet::collect(adapted), rest, econds)
+        }
+        ([], [(id, spec), rest @ ..]) => {
+            let adapted = set.with_conditions_each(LogCond::new(*id, spec));
+            each(DynSet::collect(adapted), &[], rest)
+        }
+        ([], []) => DynSet::collect(set),
+    }
+}
+
+/// `bind.to(set)` with the block's `emod`/`econd` lines applied to the set.
+fn to_each<S: InputBindSet>(bind: &mut ActionBind, set: S, emods: &Mods, econds: &Conds) {
+    if emods.is_empty() && econds.is_empty() {
+        bind.to(set);
+    } else {
+        bind.to(each(set, emods, econds));
+    }
+}
+
+fn cardinal(keys: &[KeyMod; 4]) -> Cardinal<Input> {
+    Cardinal {
+        north: key_input(keys[0]),
+        east: key_input(keys[1]),
+        south: key_input(keys[2]),
+        west: key_input(keys[3]),
+    }
+}
+
+fn bidirectional(keys: &[KeyMod; 2]) -> Bidirectional<Input> {
+    Bidirectional {
+        positive: key_input(keys[0]),
+        negative: key_input(keys[1]),
+    }
+}
+
+fn stick(index: u8) -> GamepadStick {
+    if index == 0 {
+        GamepadStick::Left
+    } else {
+        GamepadStick::Right
+    }
+}
+
+/// `bind.to(item)` for a single item (routes 0 and 3).
+fn item_to(bind: &mut ActionBind, item: &Item, emods: &Mods, econds: &Conds) {
+    match item {
+        Item::In(input) => to_each(bind, build_bind(input), emods, econds),
+        Item::Cardinal(keys) => to_each(bind, cardinal(keys), emods, econds),
+        Item::Bidir(keys) => to_each(bind, bidirectional(keys), emods, econds),
+        Item::Stick(index) => to_each(bind, stick(*index), emods, econds),
+    }
+}
+
+/// An item as a tuple member (routes 1 and 2).
+fn item_set(item: &Item, emods: &Mods, econds: &Conds) -> DynSet {
+    match item {
+        Item::In(input) => each(build_bind(input), emods, econds),
+        Item::Cardinal(keys) => each(cardinal(keys), emods, econds),
+        Item::Bidir(keys) => each(bidirectional(keys), emods, econds),
+        Item::Stick(index) => each(stick(*index), emods, econds),
+    }
+}
+
+/// Calls `$call` with the tuple `($first.., v0, .., vn)` made of all members of the vector `$items`.
+macro_rules! to_tuple {
+    ($items:expr, |$tuple:ident| $call:expr, $($n:literal => ($($v:ident),+)),* $(,)?) => {
+        match $items.len() {
+            $(
+                $n => {
+                    let Ok([$($v),+]) = <[DynSet; $n]>::try_from($items) else {
+                        unreachable!("length is checked");
+                    };
+                    let $tuple = ($($v,)+);
+                    $call;
+                }
+            )*
+            _ => unreachable!("tuple size is checked by the parser"),
+        }
+    };
+}
+
+/// One `.to((i0, i1, ...))` call (route 1).
+fn to_flat_tuple(bind: &mut ActionBind, items: Vec<DynSet>) {
+    if items.is_empty() {
+        return;
+    }
+    to_tuple!(items, |tuple| bind.to(tuple),
+        1 => (a),
+        2 => (a, b),
+        3 => (a, b, c),
+        4 => (a, b, c, d),
+        5 => (a, b, c, d, e),
+        6 => (a, b, c, d, e, f),
+        7 => (a, b, c, d, e, f, g),
+        8 => (a, b, c, d, e, f, g, h),
+    );
+}
+
+/// One `.to(((i0, i1), (i2, ...)))` call (route 2, at least three items).
+fn to_nested_tuple(bind: &mut ActionBind, mut items: Vec<DynSet>) {
+    let rest = items.split_off(2);
+    let Ok([first, second]) = <[DynSet; 2]>::try_from(items) else {
+        unreachable!("length is checked");
+    };
+    let head = (first, second);
+    to_tuple!(rest, |tail| bind.to((head, tail)),
+        1 => (a),
+        2 => (a, b),
+        3 => (a, b, c),
+        4 => (a, b, c, d),
+        5 => (a, b, c, d, e),
+        6 => (a, b, c, d, e, f),
+    );
+}
+
+/// Replays one `act` block through the public API.
+fn build_block(ctx: &mut ContextInstance, block: &ActBlock) {
+    let (emods, econds) = (block.emods.as_slice(), block.econds.as_slice());
+    let bind = bind_action(ctx, block.a);
+
+    for (id, spec) in &block.amods {
+        bind.with_modifiers(LogMod::new(*id, spec));
+    }
+    for (id, spec) in &block.aconds {
+        bind.with_conditions(LogCond::new(*id, spec));
+    }
+
+    match block.route {
+        0 => {
+            for item in &block.items {
+                item_to(bind, item, emods, econds);
+            }
+        }
+        1 | 2 => {
+            let items: Vec<DynSet> = block
+                .items
+                .iter()
+                .map(|item| item_set(item, emods, econds))
+                .collect();
+            if block.route == 2 && items.len() >= 3 {
+                to_nested_tuple(bind, items);
+            } else {
+                to_flat_tuple(bind, items);
+            }
+        }
+        3 => {
+            for item in &block.items {
+                item_to(bind_action(ctx, block.a), item, emods, econds);
+            }
+        }
+        _ => {
+            let inputs: Vec<Input> = block
+                .items
+                .iter()
+                .map(|item| match item {
+                    Item::In(input) => build_input(&input.spec),
+                    _ => unreachable!("routes 4 and 5 take plain inputs only"),
+                })
+                .collect();
+            if block.route == 4 {
+                to_each(bind, &inputs, emods, econds);
+            } else {
+                to_each(bind, &inputs[..], emods, econds);
+            }
+        }
+    }
+}
+
 /// Builds the instance of context type `c` for the variant stored on the entity.
 pub fn context_instance(world: &World, c: usize, variant: Option<u8>) -> ContextInstance {
     let mut ctx = ContextInstance::default();
@@ -279,42 +529,8 @@ pub fn context_instance(world: &World, c: usize, variant: Option<u8>) -> Context
         ctx.set_gamepad(gamepad);
     }
 
-    let mut current = usize::MAX;
-    for step in &ctx_cfg.steps {
-        match step {
-            Step::Act(a) => {
-                current = *a;
-                bind_action(&mut ctx, current);
-            }
-            Step::AMod(id, spec) => {
-                bind_action(&mut ctx, current).with_modifiers(LogMod {
-                    id: *id,
-                    inner: build_mod(spec),
-                });
-            }
-            Step::ACond(id, spec) => {
-                bind_action(&mut ctx, current).with_conditions(LogCond {
-                    id: *id,
-                    inner: build_cond(spec),
-                });
-            }
-            Step::In(input) => {
-                let mut binding = InputBind::new(build_input(&input.spec));
-                for (id, spec) in &input.mods {
-                    binding = binding.with_modifiers(LogMod {
-                        id: *id,
-                        inner: build_mod(spec),
-                    });
-                }
-                for (id, spec) in &input.conds {
-                    binding = binding.with_conditions(LogCond {
-                        id: *id,
-                        inner: build_cond(spec),
-                    });
-                }
-                bind_action(&mut ctx, current).to(binding);
-            }
-        }
+    for block in &ctx_cfg.blocks {
+        build_block(&mut ctx, block);
     }
 
     ctx
